@@ -4,7 +4,7 @@
  *     #include "vprelude.h"
  *     [#define VL_WITH_PAIRS / VL_DISPATCH_LLIST / VL_DISPATCH_DLIST]
  *     #include "lists.h"                 (pulls in velem.h and re-binds the dispatch macros)
- *     [#include "src/objpair.c"]         (map units)
+ *     [#define VL_SWITCH_ELEM / #include "lists.h" / #include "src/objpair.c" / #define VL_SWITCH_OBJ / #include "lists.h"]   (map units)
  *     #include "src/linked_list.c" and/or "src/dlinked_list.c"
  *
  * 1. DISPATCH.  libast calls element methods through SPIF_OBJ_COMP/DUP/DEL(o): the class
@@ -93,14 +93,41 @@ static spif_bool_t vl_obj_del(spif_obj_t a)
     return velem_del((velem_t) a);
 }
 
+/* element-level dispatchers: used INSIDE objpair.c, whose keys and values are always velems in these
+ * units (a pair of pairs is never built), so pair -> key/value dispatch cannot recurse */
+static spif_cmp_t vl_elem_comp(spif_obj_t a, spif_obj_t b)
+{
+    __CPROVER_assert(a != NULL, "SPIF_OBJ_COMP: receiver is not NULL (dispatch dereferences it)");
+    return velem_comp((velem_t) a, (velem_t) b);
+}
+static spif_obj_t vl_elem_dup(spif_obj_t a)
+{
+    __CPROVER_assert(a != NULL, "SPIF_OBJ_DUP: receiver is not NULL (dispatch dereferences it)");
+    if (a == NULL) return (spif_obj_t) NULL;
+    return (spif_obj_t) velem_dup((velem_t) a);
+}
+static spif_bool_t vl_elem_del(spif_obj_t a)
+{
+    __CPROVER_assert(a != NULL, "SPIF_OBJ_DEL: receiver is not NULL (dispatch dereferences it)");
+    if (a == NULL) return FALSE;
+    return velem_del((velem_t) a);
+}
+
 #undef SPIF_OBJ_COMP
 #undef SPIF_OBJ_DUP
 #undef SPIF_OBJ_DEL
 #undef SPIF_OBJ_SHOW
-#define SPIF_OBJ_COMP(o1, o2) vl_obj_comp(SPIF_OBJ(o1), SPIF_OBJ(o2))
-#define SPIF_OBJ_DUP(o)       vl_obj_dup(SPIF_OBJ(o))
-#define SPIF_OBJ_DEL(o)       vl_obj_del(SPIF_OBJ(o))
+/* VL_*_IMPL is looked up where the macro is USED: a map TU says
+ *     #define VL_SWITCH_ELEM / #include "lists.h" / #include "src/objpair.c"
+ *     #define VL_SWITCH_OBJ  / #include "lists.h" / #include "src/linked_list.c"
+ * so that objpair.c dispatches on velems only and the list code on (pair | list | velem). */
+#define SPIF_OBJ_COMP(o1, o2) VL_COMP_IMPL(SPIF_OBJ(o1), SPIF_OBJ(o2))
+#define SPIF_OBJ_DUP(o)       VL_DUP_IMPL(SPIF_OBJ(o))
+#define SPIF_OBJ_DEL(o)       VL_DEL_IMPL(SPIF_OBJ(o))
 #define SPIF_OBJ_SHOW(o, b, i) ((spif_str_t) (b))
+#define VL_COMP_IMPL vl_obj_comp
+#define VL_DUP_IMPL  vl_obj_dup
+#define VL_DEL_IMPL  vl_obj_del
 
 /* get_keys / get_values / get_pairs build their result with SPIF_LIST_NEW(linked_list) and
  * SPIF_LIST_APPEND(result, x); the harness only ever passes NULL or a linked_list as result
@@ -261,6 +288,19 @@ static spif_obj_t vl_data_list(vl_seq_t *m, int i)
     if (nondet_bool()) { m->e[i] = NULL; m->key[i] = 0; }
     else { int k = nondet_int(); m->e[i] = (spif_obj_t) vl_elem(k); m->key[i] = k; }
     return m->e[i];
+}
+/* element of a list without placeholders: a velem with an arbitrary key, any order */
+static spif_obj_t vl_data_any(vl_seq_t *m, int i)
+{
+    int k = nondet_int();
+    m->e[i] = (spif_obj_t) vl_elem(k); m->key[i] = k;
+    return m->e[i];
+}
+static int vl_has_placeholder(const vl_seq_t *m)
+{
+    int i;
+    for (i = 0; i < m->len && i < VL_CAP; i++) if (m->e[i] == NULL) return 1;
+    return 0;
 }
 /* element of a vector: never NULL, keys ascending (<=) */
 static spif_obj_t vl_data_vec(vl_seq_t *m, int i)
@@ -428,3 +468,23 @@ static int vl_pick_len(void)
 }
 
 #endif /* VERIF_LISTS_H */
+
+/* ---- re-includable part: switch the dispatch level (see above) ---- */
+#ifdef VL_SWITCH_ELEM
+# undef VL_SWITCH_ELEM
+# undef VL_COMP_IMPL
+# undef VL_DUP_IMPL
+# undef VL_DEL_IMPL
+# define VL_COMP_IMPL vl_elem_comp
+# define VL_DUP_IMPL  vl_elem_dup
+# define VL_DEL_IMPL  vl_elem_del
+#endif
+#ifdef VL_SWITCH_OBJ
+# undef VL_SWITCH_OBJ
+# undef VL_COMP_IMPL
+# undef VL_DUP_IMPL
+# undef VL_DEL_IMPL
+# define VL_COMP_IMPL vl_obj_comp
+# define VL_DUP_IMPL  vl_obj_dup
+# define VL_DEL_IMPL  vl_obj_del
+#endif
